@@ -1,7 +1,7 @@
 (* area client: model units for the RPC client shell (receive loops, handshake, framing). *)
 From Coq Require Import String.
 From V Require Import Prelude.Base Prelude.Val Model.Recv Model.Handshake gen.C_client.
-From V Require Import Model.Pdu Model.Request Model.Framing Model.Toy.
+From V Require Import Model.Pdu Model.Request Model.Framing Model.Toy Model.Seal.
 
 Fixpoint zs_of_vals (l : list val) : option (list Z) :=
   match l with
@@ -116,11 +116,30 @@ Definition u_strip (a : val) : val :=
   | _ => bad
   end.
 
+(* ---- sealed replies ---- *)
+(* [flavour; auth; sign; has_offsets; recv_seq; stream] -> stub of the accepted Response | error *)
+Definition u_seal (a : val) : val :=
+  match a with
+  | VL [VI _flavour; VI auth; VI sign; VI has_offs; VI seq; VB s] =>
+    match sync_recv_pdu {| stream := s; sched := [] |} with
+    | (Raise e, _) => VE e
+    | (Ok (pdu, _), _) =>
+      match pdu_header_unpack (firstn 16 pdu) with
+      | Raise e => VE e
+      | Ok hdr =>
+        vres (fun r => VB (rs_stub_data r))
+          (process_response (toy_unwrap seq) (negb (auth =? 0)) (if has_offs =? 0 then None else Some (24, 24))
+             (negb (sign =? 0)) hdr pdu)
+      end
+    end
+  | _ => bad
+  end.
+
 Open Scope string_scope.
 Definition units : list (string * (val -> val)) :=
   [ ("recv.sync", u_recv_sync); ("recv.async", u_recv_async);
     ("handshake", u_handshake); ("bind_result", u_bind_result);
-    ("framing", u_framing); ("strip", u_strip) ].
+    ("framing", u_framing); ("strip", u_strip); ("seal", u_seal) ].
 
 Fixpoint lookup (n : string) (l : list (string * (val -> val))) : option (val -> val) :=
   match l with
